@@ -107,6 +107,8 @@ func canonObj(sb *strings.Builder, o tengo.Object, ids map[interface{}]int, dept
 		sb.WriteString("i" + strconv.FormatInt(x.Value, 10))
 	case *tengo.String:
 		sb.WriteString("s" + strconv.Quote(x.Value))
+	case *tengo.BuiltinFunction:
+		sb.WriteString("f:" + x.Name)
 	case *tengo.Array:
 		if ids != nil {
 			if id, ok := ids[x]; ok {
